@@ -159,6 +159,13 @@ pub fn run_session(opts: &str, cmds: &str, events: &str, rules: &str) -> Session
         }
         let q = query.clone();
         options.query = q.as_deref();
+        // --history / --cmd-history entries (oldest first), `+`-separated
+        let hist = |k: &str| -> Vec<String> {
+            val(k).map(|v| v.split('+').map(dec_str).collect()).unwrap_or_default()
+        };
+        let (qh, ch) = (hist("hist"), hist("chist"));
+        options.query_history = &qh;
+        options.cmd_history = &ch;
         options.expect = expect.clone();
         options.cmd_collector = feeder;
         let term = Arc::new(Term::with_options(TermOptions::default().hold(true)).unwrap());
@@ -242,6 +249,8 @@ pub fn run_session(opts: &str, cmds: &str, events: &str, rules: &str) -> Session
                 send(Event::EvActAddChar(c), &mut sent_user)
             }
             "bs" => send(Event::EvActBackwardDeleteChar, &mut sent_user),
+            "prevh" => send(Event::EvActPreviousHistory, &mut sent_user),
+            "nexth" => send(Event::EvActNextHistory, &mut sent_user),
             "rot" => send(Event::EvActRotateMode, &mut sent_user),
             "ti" => send(Event::EvActToggleInteractive, &mut sent_user),
             "refresh" => send(Event::EvActRefreshCmd, &mut sent_user),
